@@ -16,6 +16,7 @@ def run(ck, fb):
     r08f(ck, fb)
     r08g(ck, fb)
     r08h(ck, fb)
+    ck.borrow('rules.c05', {'R05h': 'R08i'}, 'the membership saved when a snapshot is installed must be the one recorded in that snapshot')
 
 
 def _run0(ck, fb):
